@@ -1,8 +1,50 @@
-import Proofs.Basic
+import Proofs.NoPanic
 /-!
 # C11 — no byte string can crash or hang the decoder
+
+In the model every Go slice expression and index of `fix/encoding` (`scanKeyValue`, the group
+branch of `unmarshal`, `splitGroup`, `validateRaw`) and of `fix.ValueByTag` is a *checked*
+operation whose failure is the value `Res.panic`. The theorems below say that value is never
+produced: for every target message (any template tree, any nesting of groups and components,
+any prior population) and **every** byte string the decoder returns `ok` or `err`.
+
+"Cannot hang": every function of the model is a total Lean function — structural recursion
+over the template tree and the byte list, and for `splitGroup` (the only loop whose progress
+depends on the data) a decreasing-length termination proof that Lean checked at definition
+time (`decreasing_by` in `FixModel/Decode.lean`).
 -/
-theorem C11_sliceFrom_ok (s : Bytes) (n : Nat) (h : n ≤ s.length) : sliceFrom s n = .ok (s.drop n) := by
-  unfold sliceFrom
-  have : (0 : Int) ≤ n ∧ (n : Int) ≤ s.length := by omega
-  simp [this]
+
+/-- the whole decoder, `encoding.Unmarshal` / `DefaultUnmarshaller.Unmarshal` -/
+theorem C11_unmarshal (m : Msg) (d : Bytes) : m.unmarshal d ≠ .panic := Msg.unmarshal_ne_panic m d
+
+/-- … in `isPanic` form, as the driver reports it -/
+theorem C11_unmarshal_isPanic (m : Msg) (d : Bytes) : (m.unmarshal d).isPanic = false := by
+  have := C11_unmarshal m d
+  cases h : m.unmarshal d <;> simp_all [Res.isPanic]
+
+/-- the integrity check alone -/
+theorem C11_validateRaw (m : Msg) (d : Bytes) : validateRaw m d ≠ .panic := validateRaw_ne_panic m d
+
+/-- field parsing alone (what runs when a custom unmarshaller skips the integrity check):
+    any item tree, fresh or pre-populated, any bytes -/
+theorem C11_items (is : List Item) (fresh : Bool) (d : Bytes) : unmList is fresh d ≠ .panic :=
+  unmList_ne_panic is fresh d
+
+/-- the entry splitter terminates without a panic on every non-empty slice and non-empty first tag
+    (the two facts the group branch establishes before calling it) -/
+theorem C11_splitGroup (firstTag line : Bytes) (hf : firstTag ≠ []) (hl : line ≠ []) :
+    splitGroup firstTag line ≠ .panic := splitGroup_ne_panic firstTag hf _ line rfl hl
+
+/-- `fix.ValueByTag` -/
+theorem C11_valueByTag (msg tag : Bytes) : valueByTag msg tag ≠ .panic := valueByTag_ne_panic msg tag
+
+/-- the statement has content: the checked operations *do* panic when their guards are absent —
+    `line[1:]` on an empty slice (what the pre-fix code reached for the count field as last field),
+    `data[:n]` beyond the length (what the pre-fix `scanKeyValue` did on inputs shorter than `tag=`) -/
+example : splitGroup [53] [] = .panic ∧ sliceTo [56] 2 = .panic ∧ byteAt [] 0 = .panic := by
+  refine ⟨by simp [splitGroup], by decide, by decide⟩
+
+/-- and the decoder really runs on hostile input: a group count field with nothing behind it is an error,
+    not a panic -/
+example : ((Item.group [49, 52, 54] [.kv [53, 53] (Val.blank .str)] []).unm false
+    [56, 61, 70, 1, 49, 52, 54, 61, 50]).isOk = false := by decide
